@@ -39,6 +39,7 @@ pub struct ParseObs {
 }
 
 pub fn observe(text: &str, check_lex: bool) -> Result<ParseObs, Value> {
+    note_input(text);
     guarded(|| {
         if check_lex {
             let p = SourceFile::parse_check_lex(text);
@@ -155,6 +156,7 @@ fn ntokens(text: &str) -> usize {
 /// Run both entry points on a text; return violations (with the property they belong to).
 pub fn check_text(text: &str) -> Vec<Value> {
     let mut out = vec![];
+    note_input(text);
     let nt = guarded(|| ntokens(text)).unwrap_or(0);
     let mut trees: Vec<Option<Vec<[u32; 5]>>> = vec![];
     for check_lex in [false, true] {
